@@ -200,9 +200,24 @@ class Interp:
             if s.exc is None:
                 raise RaiseSig('<reraise>', (), s)
             if isinstance(s.exc, ast.Call):
+                callee = None
+                if isinstance(s.exc.func, ast.Name) and (s.exc.func.id in env or s.exc.func.id in self.globals):
+                    callee = env.get(s.exc.func.id, self.globals.get(s.exc.func.id))
+                if isinstance(callee, ModuleFunc) or (isinstance(callee, tuple) and callee and callee[0] in ('closure', 'partial')):
+                    # a helper that builds and returns the exception object
+                    val = self.eval(s.exc, env)
+                    if isinstance(val, Sym) and val.kind == 'instance':
+                        raise RaiseSig(val.args[0], tuple(val.args[1]), s)
+                    if isinstance(val, Sym) and val.kind == 'exc':
+                        raise RaiseSig(val.args[0], tuple(val.args[1]), s)
+                    self.bad(s, 'raise of a value that is not an exception instance')
                 cls = norm(s.exc.func)
                 args = tuple(self.eval(a, env) for a in s.exc.args)
                 raise RaiseSig(cls, args, s)
+            if isinstance(s.exc, ast.Name) and s.exc.id in env:
+                val = env[s.exc.id]
+                if isinstance(val, Sym) and val.kind in ('instance', 'exc'):
+                    raise RaiseSig(val.args[0], tuple(val.args[1]), s)
             raise RaiseSig(norm(s.exc), (), s)
         elif isinstance(s, ast.Continue):
             raise ContinueSig()
